@@ -12,6 +12,7 @@ import JominiModel.Proofs.BinDeTotal
 import JominiModel.Proofs.TextDeTotal
 import JominiModel.Proofs.TextTapeDomWf
 import JominiModel.Proofs.TextTapeJsonWf
+import JominiModel.Proofs.BinTapeDeWf
 /-
 C05 — No input can crash, hang or escape memory bounds in any entry point.
 
